@@ -236,6 +236,9 @@ def check_find(ctx, search, content, q, index=0, limit=None, full=None):
     return list(res.items)
 
 
+FLOOD = 300
+
+
 def work_store(args):
     '''everything for one database content'''
     tier, seed, mask, do_expr = args
@@ -254,6 +257,8 @@ def work_store(args):
         runids, targets, tasks, algs, svs, vals = menus(tier)
         nontrivial = set()
         for combo in itertools.product(runids, targets, tasks, algs, svs, vals):
+            if ctx.flooded(FLOOD):
+                break
             q = qdict(*combo)
             items = check_find(ctx, search, content, q)
             if items:
@@ -262,6 +267,8 @@ def work_store(args):
         for r, tg, al in itertools.product(
             [None, '1:4', '1,2,3'], [None, ['A']], [None, ['a']]
         ):
+            if ctx.flooded(FLOOD):
+                break
             q = qdict(r, tg, None, al, None, None)
             full = check_find(ctx, search, content, q)
             if full is None:
@@ -319,9 +326,16 @@ def work_store(args):
                         f'facet {empty} returned {got}, reference {want}',
                         {'content': content, 'query': qrepr(q)},
                     )
+        if ctx.flooded(FLOOD):
+            out = ctx.export()
+            out['nontrivial'] = []
+            out['sample'] = {'content': content, 'query': 'stopped early: too many violations'}
+            return out
         front_end(ctx, content)
         if do_expr:
             for expr in all_expressions(do_expr):
+                if ctx.flooded(FLOOD):
+                    break
                 q = qdict(expr, None, None, None, None, None)
                 check_find(ctx, search, content, q)
                 ctx.count('expr_finds')
